@@ -9,7 +9,7 @@ references after it.  The readers are proved to produce exactly the objects / po
 format's structure defines in terms of OBJ / END / NREF of their children (modular induction; termination is C11's).
 """
 import z3
-from pyvc.engine import Loop, SObj, Opaque, HFile, HRefTable, STupleSeq, PyLong, Contract
+from pyvc.engine import HList, handle_seq_of_list, Loop, SObj, Opaque, HFile, HRefTable, STupleSeq, PyLong, Contract
 from pyvc.types import Maker, Int, Bool, Const
 from pyvc.sym import And, Or, Not, Implies, If, Len, SInt, SBool, SEnum, ZSeq, _ie, _be, is_sym
 from pyvc import sym
@@ -275,6 +275,8 @@ def chend(p: int, r: int, n: int, which: int) -> int:
 
 
 def TS(v):
+    if isinstance(v, HList):
+        return handle_seq_of_list(v)
     if isinstance(v, (frozenset, set)) and len(v) == 0:
         return ZSeq()
     if isinstance(v, Opaque) and isinstance(v.src, STupleSeq):
@@ -296,7 +298,7 @@ def container_contract(name, code, result_type):
         out = [("children", TS(result) == children(p0 + width, r1, b, n)),
                ("position", self.fp.pos == chend(p0 + width, r1, n, 0)),
                ("ref-count", self.internObjects.length == chend(p0 + width, r1, n, 1)),
-               ("kind", (isinstance(result, result_type) or (isinstance(result, Opaque) and result.pytype is result_type)) if result_type is not tuple else not isinstance(result, (Opaque, set, frozenset)))]
+               ("kind", isinstance(result, HList) if result_type is list else (isinstance(result, result_type) or (isinstance(result, Opaque) and result.pytype is result_type)) if result_type is not tuple else not isinstance(result, (Opaque, set, frozenset, HList)))]
         if self.internObjects.tail:
             out.append(("ref-slot-reserved-before-children", SInt(self.internObjects.tail[0][0]) == r0))
             out.append(("ref-slot-holds-the-finished-object", self.internObjects.tail[0][1] is result))
@@ -304,7 +306,7 @@ def container_contract(name, code, result_type):
 
     def inv(self, _old_self, ret, bytes_for_s, save_ref, **kw):
         pass
-    cntvar = {"t_small_tuple": "tuplesize", "t_tuple": "tuplesize", "t_frozenset": "setsize", "t_set": "setsize"}[name]
+    cntvar = {"t_small_tuple": "tuplesize", "t_tuple": "tuplesize", "t_frozenset": "setsize", "t_set": "setsize", "t_list": "n"}[name]
 
     def invariant_fn(self, _old_self, ret, bytes_for_s, save_ref, cnt):
         p0, d, r0 = _old_self.pos, _old_self.data, _old_self.nrefs
@@ -330,5 +332,8 @@ container_contract("t_small_tuple", ")", tuple)
 container_contract("t_tuple", "(", tuple)
 container_contract("t_frozenset", ">", frozenset)
 container_contract("t_set", "<", set)
+# '[': the list is registered in the reference table *before* its children are read and then extended in place, so
+# the slot holds the finished object by aliasing (HHandleList: a list of handles of symbolic length)
+container_contract("t_list", "[", list)
 
 ALL_CONTRACTS = CONTRACTS + [R_OBJECT_ABSTRACT]
